@@ -241,8 +241,10 @@ Base(L, s, r, d, k, p) == Case(L, s, r, d, k, p, AnyShape, "any")
 Unflagged == { Base(L, s, r, d, k, FALSE) : L \in SUBSET Langs, s \in RuleShapes, r \in BOOLEAN, d \in DatFields, k \in Decls }
 Flagged   == { Base(L, s, r, d, k, TRUE)  : L \in SUBSET Langs, s \in P2Shapes,   r \in BOOLEAN, d \in DatFields, k \in Decls }
 \* explicit redeemer shapes (with and without datums), explicit datum encodings (with and without redeemers)
-RedShaped == { Case(L, s, TRUE, d, k, p, rs, "any") :
-                 L \in ShapedL, s \in ShapedShapes, d \in {"absent", "list"}, k \in Decls, p \in ShapedP2, rs \in RedShapes }
+\* (only where some era has the languages, the form and the shape: V4 is Dijkstra's, a repeated key Conway's)
+RedShaped == { x \in { Case(L, s, TRUE, d, k, p, rs, "any") :
+                 L \in ShapedL, s \in ShapedShapes, d \in {"absent", "list"}, k \in Decls, p \in ShapedP2, rs \in RedShapes } :
+               ErasOf(x) # {} }
 DatShaped == { Case(L, s, r, d, k, p, AnyShape, de) :
                  L \in ShapedL, s \in ShapedShapes, r \in BOOLEAN, d \in {"list", "set"}, k \in Decls, p \in ShapedP2, de \in DatEncs }
 CaseSpace == Unflagged \cup Flagged \cup RedShaped \cup DatShaped
